@@ -278,6 +278,24 @@ func (bn *baseNode) setModTime(mtime time.Time, u avfs.UserReader) bool {
 	return true
 }
 
+// canSetOwner returns true if the user u can change the owner and the group of the node to uid and gid :
+// the administrator always can, the owner of the node can keep the uid and set the gid to its own group.
+func (bn *baseNode) canSetOwner(uid, gid int, u avfs.UserReader, hasIdm bool) bool {
+	if !hasIdm || u.IsAdmin() || (uid == -1 && gid == -1) {
+		return true
+	}
+
+	if bn.uid != u.Uid() {
+		return false
+	}
+
+	if uid != -1 && uid != bn.uid {
+		return false
+	}
+
+	return gid == -1 || gid == bn.gid || gid == u.Gid()
+}
+
 // setOwner sets the owner of the node.
 func (bn *baseNode) setOwner(uid, gid int) {
 	if uid != -1 {
